@@ -1044,6 +1044,10 @@ class MEDDLY::unpacked_node {
         /// Allocated size of ForLists
         static unsigned ForListsAlloc;
 
+        /// Number of library initializations so far.
+        /// Forest IDs are unique only within one of them.
+        static unsigned InitCount;
+
 
     private:
         void expand(unsigned ns);
@@ -1077,6 +1081,8 @@ class MEDDLY::unpacked_node {
         /// FID of the parent
         const unsigned pFID;
 #endif
+        /// Library initialization (see InitCount) the parent belongs to
+        unsigned pInit;
 
 
         /// Down pointers
